@@ -13,7 +13,7 @@ INFO = {
         'independent reference posterior (ref/wenglin.py in floats, 1e-9) of that very slot for W - a swap of two equal-sized teams or a '
         'result left in rank-sorted order is a mismatch. limit_sigma on and off.'),
     'bounds': {
-        'quick': 'five models x {ranks, scores} x n=2,3 (all kinds), n=4 (all-int, all-float) x limit_sigma on/off; team sizes 1-3, equal-sized teams present',
+        'quick': 'five models x {ranks, scores} x n=2,3 (all kinds), n=4 (all-int, all-float) x limit_sigma on/off; team sizes 1-3, equal-sized teams present; games with distinct players and games of value-equal fresh players',
         'thorough': '+ n=4 all kinds, n=5 single kind',
     },
     'outside': ['vectors longer than 4 (5 single-kind)', '6-8 teams', 'rounding below 1e-9 in the slot comparison'],
@@ -39,6 +39,11 @@ def jobs(tier):
                     out.append({'name': f'{key}-{selector}-n{n}-{kinds}-{"ls" if ls else "nols"}', 'model': key,
                                 'shape': list(SHAPES[n]), 'selector': selector, 'kinds': kinds, 'ls': ls,
                                 'budget': budget, 'cost': budget})
+                    if not ls and kinds in ('all', 'int') and selector == 'ranks':
+                        # value-equal players (fresh default ratings), equal-sized teams
+                        out.append({'name': f'{key}-{selector}-n{n}-{kinds}-fresh', 'model': key,
+                                    'shape': [2] * n if n < 4 else [1] * n, 'selector': selector, 'kinds': kinds, 'ls': ls,
+                                    'game': 'fresh', 'budget': budget, 'cost': budget})
     return out
 
 
@@ -118,14 +123,15 @@ def run_job(spec, ctx):
                            'path_condition': [str(c) for c in eng.pc][:12]})
         else:
             vals = O.witness_ranks(eng, n)
-            cand = None if vals is None else {'model': key, 'shape': list(shape), 'selector': selector, 'ls': ls,
-                                              'vals': O.encode_vals(vals)}
+            cand = None if vals is None else {'model': key, 'shape': list(shape), 'selector': selector, 'ls': ls, 'game': spec.get('game', 'distinct'),
+                                              'vals': O.encode_vals(vals), '__alts__': O.nasty_vectors(n)}
             ctx.ob(f'{selector}, weak order {W}: {probs[0]}', 'sat' if cand else 'unknown', cand)
 
 
 def replay(cand):
     key, shape, selector, ls = cand['model'], tuple(cand['shape']), cand['selector'], cand['ls']
     vals = O.decode_vals(cand['vals'])
+    O.GAME['variant'] = cand.get('game', 'distinct')
     m, teams = O.build_concrete(key, shape, limit_sigma=ls)
     ids = [[(p.id, p.name) for p in t] for t in teams]
     objs = [list(t) for t in teams]
@@ -140,4 +146,4 @@ def replay(cand):
     kinds = ','.join(type(v).__name__ for v in vals)
     return {'violated': bool(probs),
             'key': f'{key}:{selector}:ls={ls}:kinds={kinds}:order={"".join(map(str, W))}',
-            'detail': f'C02 {H.MODEL_NAMES[key]} shape={shape} {selector}={vals!r} limit_sigma={ls}: ' + '; '.join(probs[:4])}
+            'detail': f'C02 {H.MODEL_NAMES[key]} shape={shape} game={cand.get("game", "distinct")} {selector}={vals!r} limit_sigma={ls}: ' + '; '.join(probs[:4])}
